@@ -5,6 +5,9 @@ package props
 import (
 	"encoding/json"
 	"fmt"
+	"io"
+	"log"
+	"log/slog"
 	"net/http"
 	"sort"
 	"strings"
@@ -38,6 +41,10 @@ var sharedOptions = []mux.Option{
 	mux.WithDigitInterceptor("digit"),
 	mux.WithURLDomain("https://h/"),
 }
+
+// sharedGroupOptions is one option list with room behind it (it grew by append), from which several groups are
+// built with NewGroup(..., list...): each Group keeps the caller's slice and must not write behind it.
+var sharedGroupOptions = append(make([]mux.Option, 0, 8), mux.WithURLDomain("https://shared/"), mux.WithDigitInterceptor("digit"))
 
 func runProg(p instProg, yield func()) []string {
 	var res []string
@@ -143,8 +150,11 @@ func runProg(p instProg, yield func()) []string {
 				add("ok")
 			}
 		}
-	case "group":
+	case "group", "sgroupA", "sgroupB":
 		g := newGroup()
+		if p.Kind != "group" {
+			g = newGroup(sharedGroupOptions...)
+		}
 		add("new")
 		var r1 *Router
 		for _, op := range p.Ops {
@@ -152,6 +162,13 @@ func runProg(p instProg, yield func()) []string {
 				switch op {
 				case "new1":
 					r1 = g.New("g1", mux.NewPathVersion("v", "v1"))
+				case "newOwn": // a router with an option of its own on top of the group's
+					r1 = g.New("g1", mux.NewPathVersion("v", "v1"), mux.WithURLDomain("https://"+p.Kind+"/"))
+				case "urlG":
+					if r1 != nil {
+						s, err := r1.URL(false, "/a/{x:digit}", map[string]string{"x": "1"})
+						add(fmt.Sprintf("%s/%v", s, err != nil))
+					}
 				case "handle1":
 					if r1 != nil {
 						r1.Handle("/a/{x}", hv.Route("hG"), nil, "GET")
@@ -195,6 +212,11 @@ func c07Programs() []instProg {
 	}
 	for _, ops := range [][]string{{}, {"new1", "handle1", "serve"}, {"use", "serve404"}, {"new1", "use", "serve404"}} {
 		ps = append(ps, instProg{"group", ops})
+	}
+	for _, k := range []string{"sgroupA", "sgroupB"} {
+		for _, ops := range [][]string{{"newOwn", "urlG"}, {"new1", "urlG"}} {
+			ps = append(ps, instProg{k, ops})
+		}
 	}
 	return ps
 }
@@ -260,6 +282,12 @@ func c07aJob(raw json.RawMessage) (any, error) {
 			}
 			if s.Deadlock || s.Horizon {
 				return mk("C07.deadlock", "deadlock", "threads unfinished, none enabled", "no deadlock")
+			}
+			for i, o := range sharedGroupOptions[:cap(sharedGroupOptions)] {
+				if i >= len(sharedGroupOptions) && o != nil {
+					sharedGroupOptions[:cap(sharedGroupOptions)][i] = nil
+					return mk("C07.instances-independent", "caller-option-slice-written", fmt.Sprintf("slot %d behind the option list both groups were built from now holds an option", i), "the list handed to NewGroup is read, never appended into")
+				}
 			}
 			for t := 0; t < 2; t++ {
 				if e := explore.TakePanic(t); e != nil {
@@ -335,7 +363,16 @@ func quiescentServer(lock bool, shape int) http.Handler {
 }
 
 func quiescentRouter(lock bool, shape int) *Router {
-	r := NewRouter(RouterCfg{Lock: lock})
+	var opts []mux.Option
+	switch shape { // the built-in recovery options: whatever they keep between panics is shared by all requests
+	case 3:
+		opts = append(opts, mux.WithLogRecovery(500, log.New(io.Discard, "", 0)))
+	case 4:
+		opts = append(opts, mux.WithSLogRecovery(500, slog.New(slog.NewTextHandler(io.Discard, nil))))
+	case 5:
+		opts = append(opts, mux.WithStatusRecovery(500))
+	}
+	r := NewRouter(RouterCfg{Lock: lock}, opts...)
 	r.Handle("/u/{id}", hv.Route("hU"), nil, "GET")
 	r.Handle(`/u/{id}/p/{n:\d+}`, hv.Route("hUP"), nil, "GET")
 	r.Handle("/s", hv.Route("hS"), nil, "GET")
@@ -448,7 +485,7 @@ func c07cJob(raw json.RawMessage) (any, error) {
 					if got != want[t][i] {
 						return mk("C07.own-params", "foreign-params", fmt.Sprintf("T%d %s -> %s", t, it.Threads[t][i], got), want[t][i])
 					}
-					if !o.Paniced && o.Kind != "404" && (hv.ParamsString(o.ParamsExit) != hv.ParamsString(o.Params) || o.PatternExit != o.Pattern || o.RouterExit != o.Router) {
+					if !o.Paniced && it.Threads[t][i].Fault == nil /* a handler that panicked never reached its exit */ && o.Kind != "404" && (hv.ParamsString(o.ParamsExit) != hv.ParamsString(o.Params) || o.PatternExit != o.Pattern || o.RouterExit != o.Router) {
 						return mk("C07.own-params", "context-reused-while-live", fmt.Sprintf("T%d %s: at handler entry %s pat=%q, at handler exit %s pat=%q", t, it.Threads[t][i], hv.ParamsString(o.Params), o.Pattern, hv.ParamsString(o.ParamsExit), o.PatternExit), "the request keeps its own parameters and node for its whole life time")
 					}
 				}
@@ -681,6 +718,13 @@ func init() {
 				for _, b := range gq[i:] {
 					citems = append(citems, c07cItem{Shape: 2, Lock: lock, Threads: [][]hv.Req{{a}, {b}}, Bound: bc - 1})
 				}
+			}
+			// shapes 3-5: two requests whose handlers panic at the same time on a router with a built-in recovery option
+			boom := hv.Req{Method: "GET", Path: "/u/1", Fault: &hv.Fault{Site: "h", Val: "boom"}}
+			boom2 := hv.Req{Method: "GET", Path: "/u/2/p/7", Fault: &hv.Fault{Site: "h", Val: "boom2"}}
+			for _, shape := range []int{3, 4, 5} {
+				citems = append(citems, c07cItem{Shape: shape, Lock: lock, Threads: [][]hv.Req{{boom}, {boom2}}, Bound: bc - 1},
+					c07cItem{Shape: shape, Lock: lock, Threads: [][]hv.Req{{boom}, {reqs[1]}}, Bound: bc - 1})
 			}
 			// shape 1: requests through the nodes whose children were removed / re-indexed
 			r1 := []hv.Req{{Method: "GET", Path: "/x/b"}, {Method: "GET", Path: "/x/9"}, {Method: "GET", Path: "/u/1/c"}, {Method: "GET", Path: "/u/2/b"}, {Method: "GET", Path: "/s"}, {Method: "GET", Path: "/x/a"}}
